@@ -1669,6 +1669,13 @@ example : greedyPrune [0, 2, 2, 4, 5] 2 = [0, 2, 4, 5] ∧ greedyPrune [0, 2, 2,
     greedyPrune [0, 0, 0] 3 = [0] ∧ validPrunedEdges [0, 2, 2, 4, 5] [0, 4, 5] = true ∧
     validPrunedEdges [0, 2, 2, 4, 5] [0, 3, 5] = false := by decide
 
+/-- non-vacuity of `rebin_correct` on the FIXED-width path: the coarsened table is reported uniform (20) -/
+example :
+    let gs : List (List Bin) := [[⟨0, 0, 10⟩, ⟨0, 10, 20⟩, ⟨0, 20, 25⟩], [⟨1, 0, 10⟩, ⟨1, 10, 12⟩]]
+    wfB gs = true ∧ getBinsize (coarsenGroupsSpec 2 gs).flatten = some 20 ∧
+    (List.range 5).map (rebinId (mkSeg (gs.map lastStop) (coarsenGroupsSpec 2 gs).flatten) gs.flatten) = [0, 0, 1, 2, 2] ∧
+    (List.range 5).map (cmapG 2 gs) = [0, 0, 1, 2, 2] := by decide
+
 /-! ## the property at the level of tables -/
 
 theorem groupChrom_wf (gs : List (List Bin)) (hwf : WF gs) (c : Nat) (hc : c < gs.length) :
